@@ -248,3 +248,42 @@ func harnessC19NullValue() {
 	vAssert(okm && vm == nil, "null-map-entity-materialized")
 	vCover("null-value")
 }
+
+//verif:entry property=C19 tier=both bounds="helpers instantiated with an interface-typed entity (T = any) and a collection of that type: insert / update (with or without old value) / delete of arbitrary (SMT string) keys and string values through publish -> store -> replay -> Apply; every helper names the entity type the same way, so the collection holds exactly what was written" cover="any-typed"
+func harnessC19InterfaceTypedEntity() {
+	bus, _ := newBus()
+	k1, k2 := vStr("key1"), vStr("key2")
+	vAssume(k1 != "" && k2 != "" && k1 != k2)
+	v1, v2 := vStr("value1"), vStr("value2")
+	ins, err := Insert[any](k1, v1)
+	vAssert(err == nil, "helper-ok")
+	eventbus.Publish(bus, *ins)
+	ins2, err := Insert[any](k2, v1)
+	vAssert(err == nil, "helper-ok")
+	eventbus.Publish(bus, *ins2)
+	var upd *ChangeMessage
+	if vBool() {
+		upd, err = Update[any](k1, v2)
+	} else {
+		upd, err = UpdateWithOldValue[any](k1, v2, v1)
+	}
+	vAssert(err == nil, "helper-ok")
+	vAssert(upd.Type == ins.Type, "helpers-agree-on-entity-type")
+	eventbus.Publish(bus, *upd)
+	del, err := Delete[any](k2)
+	vAssert(err == nil, "helper-ok")
+	vAssert(del.Type == ins.Type, "helpers-agree-on-entity-type")
+	eventbus.Publish(bus, *del)
+
+	m := NewMaterializer()
+	coll := NewTypedCollection[any](NewMemoryStore[any]())
+	RegisterCollection(m, coll)
+	vAssert(m.Replay(bg, bus, eventbus.OffsetOldest) == nil, "replay-ok")
+	got, ok := coll.Get(k1)
+	gs, isStr := got.(string)
+	vAssert(ok && isStr && gs == v2, "materialized-entity-equals-original")
+	_, ok2 := coll.Get(k2)
+	vAssert(!ok2, "materialized-delete-removes")
+	vAssert(len(coll.All()) == 1, "materialized-entity-equals-original")
+	vCover("any-typed")
+}
